@@ -123,6 +123,21 @@ Theorem C02_enc_delivered_verified : forall (cst : Type) (cdec : cst -> bytes ->
 Proof. exact enc_delivered_verified. Qed.
 Print Assumptions C02_enc_delivered_verified.
 
+(* T2b.  Each logged delivery is a contiguous wire segment raw block ++ rest ++ mac, and these
+   segments, in delivery order, tile a prefix of the input stream with nothing skipped, repeated or
+   reordered; while the connection is alive the remainder of the stream is exactly the header block in
+   hand plus the buffer.  For ANY shim functions, every block size, MAC size >= 0 and chunking, as long
+   as no header below one block is seen.  (etiles_ok inp s := exists tail, concat (map ewire (elog s))
+   ++ tail = inp /\ (est s = SOk -> tail = epending s ++ ebuf s).) *)
+Theorem C02_enc_delivered_tiles : forall (cst : Type) (dh : cst -> Z -> bytes -> cst * bytes * bytes)
+    (dp : cst -> Z -> bytes -> bytes -> bytes -> cst * option bytes) (bs macsz : Z),
+  0 <= macsz ->
+  forall (c0 : cst) (sq0 : Z) (chunks : list bytes),
+  eshort (fold_left (efeed dh dp bs macsz) chunks (einit c0 sq0)) = false ->
+  etiles_ok cst (concat chunks) (fold_left (efeed dh dp bs macsz) chunks (einit c0 sq0)).
+Proof. exact enc_delivered_tiles. Qed.
+Print Assumptions C02_enc_delivered_tiles.
+
 (* T3, one theorem per shim class; the premises on the primitives are exactly the hypotheses listed.
    stream_ok: the frames send_packet writes for ANY list of (payload, padding) pairs that satisfy its
    padding rule (wf_pkt: payload non-empty, >= 4 bytes of padding, _send_enchdrlen + payload + padding a
